@@ -41,8 +41,8 @@ RULE = {
            "distinct = distinct hash of the whole literal case",
 }
 
-DTYPES = ["int32", "uint16", "uint64", "int64"]
-DT_MAX = {"int32": 2**31 - 1, "uint16": 2**16 - 1, "uint64": 2**62, "int64": 2**62}
+DTYPES = ["int32", "uint16", "uint64", "int64", "uint8"]
+DT_MAX = {"int32": 2**31 - 1, "uint16": 2**16 - 1, "uint64": 2**62, "int64": 2**62, "uint8": 2**8 - 1}
 
 
 # ------------------------------------------------------------------------------------------------
@@ -624,6 +624,11 @@ def gen_relabel(rng: random.Random, public: bool, illformed: bool = False) -> di
             ids = gen_ids(rng, n, labels, allow_zero=False, big_ok=not public)
     else:
         ids = gen_ids(rng, n, labels, allow_zero=rng.random() < 0.3, big_ok=not public)
+    if dtype in ("uint8", "uint16") and mode not in ("identity", "cycle") and rng.random() < 0.35:
+        # node ids beyond the range of the label image's dtype (labels are reused per frame, node
+        # ids are global): the relabelled array must still carry them exactly
+        off = 256 if dtype == "uint8" else 65536
+        ids = [i + off if i else i for i in ids]
     rows = [[i, s, t] for i, (t, s) in zip(ids, listed)]
     rng.shuffle(rows)
     edges = gen_forest(rng, [(r[0], r[2]) for r in rows])
